@@ -72,6 +72,8 @@ SCHEMAS = [
     O({}, additionalProperties=I(), maxProperties=0),
     O({}, additionalProperties=S(maxLength=1), minProperties=1, maxProperties=1),
     # a JSON number member next to string-formatted float members, all optional (their generic Opt wrappers must stay distinct)
+    # unix timestamps as JSON numbers (milliseconds far beyond the int64-nanosecond window included)
+    O({"ms": I(format="unix-milli"), "s": I(format="unix-seconds"), "oms": I(format="unix-milli", nullable=True)}, required=["ms"]),
     O({"ratio": dict(type="number", format="float"), "price": S(format="float32"), "wide": dict(type="number", format="double"), "cost": S(format="float64")}, required=[]),
 ]
 
@@ -174,5 +176,5 @@ for i in range(len(SCHEMAS)):
         rnd.append([0, i, v])
 print(json.dumps({"packages": [{"name": "sm", "spec": spec, "extra_go": {"data.go": "\n".join(data) + "\n"}}],
                   "cases": {tier: ([{"entry": "HAccept", "args": acc}] if mode == "accept" else [{"entry": "HRound", "args": rnd}])},
-                  "bounds": {"schemas": "%d named schemas: integer bounds (inclusive/exclusive/negative), multipleOf, integer and string enums, string length, arrays (min/max/uniqueItems, nested item validation), objects (required/optional/nullable members, additionalProperties:false, nesting, 10 and 18 members so the required mask spans 2 and 3 bytes), three recursive schemas (member / array-item self reference, unfolded to depth 2) and three allOf schemas (a branch that only lists required members of the other, both orders, a branch with own properties), two map schemas (additionalProperties with a schema), string-formatted uint64 members (1-2 digits; every uint64 is C13's subject), and three sum types (by JSON type; objects told apart by their own members - incl. instances that carry the required members of two variants and must be refused; as member and array item), zero upper bounds (maxItems / maxLength / maxProperties 0) and property counts of maps" % len(SCHEMAS),
+                  "bounds": {"schemas": "%d named schemas: integer bounds (inclusive/exclusive/negative), multipleOf, integer and string enums, string length, arrays (min/max/uniqueItems, nested item validation), objects (required/optional/nullable members, additionalProperties:false, nesting, 10 and 18 members so the required mask spans 2 and 3 bytes), three recursive schemas (member / array-item self reference, unfolded to depth 2) and three allOf schemas (a branch that only lists required members of the other, both orders, a branch with own properties), two map schemas (additionalProperties with a schema), string-formatted uint64 members (1-2 digits, or nineteen digits around 2^63 with the last three symbolic; every uint64 is C13's subject), unix-milli / unix-seconds members (one digit or a 14-digit count with two symbolic digits), a JSON number and string-formatted floats (concrete literals), and three sum types (by JSON type; objects told apart by their own members - incl. instances that carry the required members of two variants and must be refused; as member and array item), zero upper bounds (maxItems / maxLength / maxProperties 0) and property counts of maps" % len(SCHEMAS),
                              "instances": "%d schema-directed instance skeletons per schema (valid instances, dropped required member, wrong type, null, undeclared member; 0..3 array items; optional members present/absent/null) with symbolic leaves: every digit of 1-2 digit integers with optional sign, every printable-ASCII string byte (0..2 bytes plus a two-byte rune), every boolean" % nvar}}))
